@@ -225,3 +225,20 @@ mod tests {
         assert_eq!(limits.outgoing_connections.len(), 1);
     }
 }
+
+/// Verification hooks (feature `verif`).
+#[cfg(feature = "verif")]
+impl ConnectionLimits {
+    /// (counted inbound, counted outbound).
+    pub fn counts_verif(&self) -> (usize, usize) {
+        (self.incoming_connections.len(), self.outgoing_connections.len())
+    }
+
+    /// Is `connection_id` counted as (inbound, outbound)?
+    pub fn contains_verif(&self, connection_id: &ConnectionId) -> (bool, bool) {
+        (
+            self.incoming_connections.contains(connection_id),
+            self.outgoing_connections.contains(connection_id),
+        )
+    }
+}
